@@ -50,7 +50,8 @@ ASSUMPTIONS = [
     "agreement of the numerical with the analytic Hessian 'to the accuracy of the scheme' is checked against bounds "
     "h*max|d3E| (forward) and h^2*max|d4E| (central) estimated from the analytic Hessian, on Morse/harmonic networks",
 ]
-RULE = ("streams: freq-oracle = generated molecules (2..15 atoms; linear / planar / general; mixed elements; minima and saddles of "
+RULE = ("streams: reorder-oracle = Species.reorder_atoms on a species carrying its analytic Hessian, every permutation of 3-4 atoms "
+        "(thorough: random non-involutive permutations up to 13 atoms); freq-oracle = generated molecules (2..15 atoms; linear / planar / general; mixed elements; minima and saddles of "
         "harmonic+Morse bond networks) x {rotations, translations, permutations, 5 storage units, scale factors}; numhess-oracle = "
         "Morse/harmonic mock gradient x {forward, central} x n_cores {1,2,4} + serial branch + every atom subset for the hybrid "
         "calculator (N<=4 exhaustive quick, N<=5 thorough); model-vs-impl = the same calculators with dyadic polynomial mock "
@@ -534,6 +535,91 @@ def oracle_frequencies(ctx, fail):
             freq_case(ctx, fail, symbols, X, H, f"linear-axis{ax}-{n}", frames_for(rng, n, 1), check_units=False)
 
 
+
+# ============================================================================================ oracle A2: relabelling through the public API
+def reorder_case(ctx, fail, symbols, X, pairs, mapping, label):
+    """Species.reorder_atoms(mapping) on a species carrying its analytic Hessian: the Hessian must be the analytic
+    Hessian of the relabelled system, frequencies unchanged, every projected mode the relabelled original."""
+    n = len(symbols)
+    rep = {"kind": "reorder-case", "symbols": list(symbols), "coords": np.asarray(X).tolist(), "pairs": [list(p) for p in pairs],
+           "mapping": {str(k): int(v) for k, v in mapping.items()}, "label": label}
+    try:
+        H = MockNet("ref", pairs).hess(np.asarray(X).flatten())
+        ref = make_molecule(symbols, X)
+        ref.hessian = Hessian(H.copy(), atoms=ref.atoms, units="Ha Å^-2")
+        f0 = floats(ref.frequencies)
+        fp0 = floats(ref.hessian.frequencies_proj)
+        m0 = [np.array(mo, dtype=float).flatten() for mo in ref.hessian.normal_modes_proj]
+        mol = make_molecule(symbols, X)
+        mol.hessian = Hessian(H.copy(), atoms=mol.atoms, units="Ha Å^-2")
+        mol.reorder_atoms(mapping=dict(mapping))
+        order = sorted(mapping, key=lambda k: mapping[k])          # new position p holds old atom order[p]
+        X2 = np.array(mol.coordinates, dtype=float)
+        sy2 = [a.label for a in mol.atoms]
+        if sy2 != [symbols[i] for i in order] or np.abs(X2 - np.asarray(X)[order]).max() > 1e-12:
+            fail("Species.reorder_atoms|atoms", f"{label}: atoms after reorder_atoms({mapping}) are {sy2}", rep)
+            return
+        pairs2 = [(mapping[i], mapping[j], k, p1, p2, r0) for (i, j, k, p1, p2, r0) in pairs]
+        H2 = MockNet("ref", pairs2).hess(X2.flatten())
+        Hs = np.array(mol.hessian, dtype=float)
+        dev = np.abs(Hs - H2).max()
+        if dev > 1e-8:
+            r, c = np.unravel_index(int(np.argmax(np.abs(Hs - H2))), Hs.shape)
+            fail("Species.reorder_atoms|hessian-not-relabelled", f"{label}: after reorder_atoms({mapping}) the stored Hessian is not the analytic Hessian of the "
+                 f"relabelled system: H[{r},{c}] = {Hs[r, c]!r}, expected {H2[r, c]!r} (max deviation {dev:.3e})", rep)
+        if mol.hessian.atoms is None or [a.label for a in mol.hessian.atoms] != sy2:
+            fail("Species.reorder_atoms|hessian-atoms", f"{label}: the Hessian's atoms are not the relabelled atoms", rep)
+        f1, fp1 = floats(mol.frequencies), floats(mol.hessian.frequencies_proj)
+        if not spec_close(f1, f0)[0] or not spec_close(fp1, fp0)[0]:
+            fail("Species.reorder_atoms|frequencies-changed", f"{label}: frequencies change under reorder_atoms({mapping}): "
+                 f"{np.sort(f0)[-3:].tolist()} -> {np.sort(f1)[-3:].tolist()}", rep)
+            return
+        m1 = [np.array(mo, dtype=float).flatten() for mo in mol.hessian.normal_modes_proj]
+        ntr = mol.hessian.n_tr
+        numax = max(1.0, float(np.abs(fp0).max()))
+        for i in range(ntr, 3 * n):
+            lo = abs(fp0[i] - fp0[i - 1]) if i > ntr else np.inf
+            hi = abs(fp0[i + 1] - fp0[i]) if i + 1 < 3 * n else np.inf
+            if min(lo, hi) < 1e-3 * numax or abs(fp0[i]) < 1e-3 * numax:
+                ctx.hist("reorder-oracle", "mode-skipped(degenerate)")
+                continue
+            want = m0[i].reshape(n, 3)[order].flatten()
+            if abs(abs(want @ m1[i]) - 1.0) > 1e-6:
+                fail("Species.reorder_atoms|modes", f"{label}: projected mode {i} is not the relabelled original after reorder_atoms({mapping}): "
+                     f"|overlap| = {abs(want @ m1[i])!r}", rep)
+                break
+    except Exception as e:  # noqa
+        fail(f"Species.reorder_atoms|exception:{type(e).__name__}", f"{label}: reorder_atoms({mapping}) raised {type(e).__name__}: {str(e)[:200]}", rep)
+
+
+def oracle_reorder(ctx, fail):
+    rng = ctx.rng
+    for n in (3, 4):
+        X = gen_geometry(rng, n, "general")
+        symbols = rng.sample(ELEMENTS, n)                  # all different: masses distinguish the atoms
+        pairs = gen_network(rng, X, stationary=True)
+        for image in itertools.permutations(range(n)):
+            mapping = {i: image[i] for i in range(n)}
+            invol = all(image[image[i]] == i for i in range(n))
+            ctx.count("reorder-oracle", (n, image), nontrivial=not invol, sample={"n_atoms": n, "mapping": list(image)})
+            ctx.hist("reorder-oracle", f"n={n}:" + ("self-inverse" if invol else "not-self-inverse"))
+            reorder_case(ctx, fail, symbols, X, pairs, mapping, f"reorder-{n}-{''.join(symbols)}")
+    if not ctx.quick:
+        for n in (5, 6, 8, 10, 13):
+            X = gen_geometry(rng, n, "general")
+            symbols = [rng.choice(ELEMENTS) for _ in range(n)]
+            pairs = gen_network(rng, X, stationary=True)
+            done = 0
+            while done < 6:
+                image = list(range(n))
+                rng.shuffle(image)
+                if all(image[image[i]] == i for i in range(n)):
+                    continue
+                done += 1
+                ctx.count("reorder-oracle", (n, tuple(image)), nontrivial=True)
+                ctx.hist("reorder-oracle", f"n={n}:not-self-inverse")
+                reorder_case(ctx, fail, symbols, X, pairs, {i: image[i] for i in range(n)}, f"reorder-{n}-{''.join(symbols)}")
+
 # ============================================================================================ oracle B: numerical Hessians
 def fd_bounds(net, x, h):
     """max |d3E| and |d4E| relevant to the rows, from finite differences of the ANALYTIC Hessian."""
@@ -897,7 +983,8 @@ def _run(ctx, full):
         worker.start()
     # 4. implementation-side oracles (always run: they give the concrete replays)
     oracle_frequencies(ctx, fail)
-    ctx.log(f"frequency / mode oracles: {fail.n} failures")
+    oracle_reorder(ctx, fail)
+    ctx.log(f"frequency / mode / relabelling oracles: {fail.n} failures")
     n1 = fail.n
     oracle_numhess(ctx, fail)
     ctx.log(f"numerical Hessian oracles: {fail.n - n1} failures")
@@ -937,6 +1024,9 @@ def replay(ctx, obj):
         if "R" in rep:
             frames.append((rep.get("frame", "stored"), np.array(rep["R"]), np.array(rep["t"]), list(rep["perm"])))
         freq_case(ctx, fail, sy, X, H, rep.get("label", "replay"), frames, check_units=True)
+    elif kind == "reorder-case":
+        reorder_case(ctx, fail, rep["symbols"], np.array(rep["coords"]), [tuple(p) for p in rep["pairs"]],
+                     {int(k): int(v) for k, v in rep["mapping"].items()}, rep.get("label", "replay"))
     elif kind == "numhess-case":
         X, sy = np.array(rep["coords"]), rep["symbols"]
         nets = [MockNet(f"mock{i}", [tuple(p) for p in ps]) for i, ps in enumerate(rep["pairs"])]
